@@ -13,6 +13,8 @@
  *   C15  ctx->total_length == sum of segment lengths
  */
 #include "common.h"
+#include "tramp.h"
+#include "guard.h"
 #include <openssl/evp.h>
 #include "sha1_mb.h"
 #include "sha256_mb.h"
@@ -197,7 +199,7 @@ static void returned(int c, int by_reject)
         if (h->buf && fnv(h->data, h->len) != h->bufsum) monitor("C08-caller-buffer-modified", c);
         if (FLD64(h->obj, A->off_total) != h->sum_len) monitor("C15-total-length", c);
         if (h->last_pending) oracle_check(c);
-        free(h->buf);
+        if (guard_mode && h->buf) guard_free(h->buf); else free(h->buf);
         h->buf = NULL;
         h->st = h->last_pending ? ST_FRESH : ST_IDLE;
 }
@@ -264,6 +266,9 @@ int main(int argc, char **argv)
         rng_t R;
         rng_seed(&R, seed);
         OpenSSL_add_all_digests();
+        tramp_setup();
+        guard_setup();
+        guard_out = fr;
 
         long done = 0;
         int episode = 0;
@@ -275,7 +280,7 @@ int main(int argc, char **argv)
                 uint8_t fill = poison ? (uint8_t) (0xA5 ^ (poison * 0x3C) ^ episode) : 0;
                 if (posix_memalign((void **) &mgr, 64, A->mgr_size)) return 2;
                 memset(mgr, fill, A->mgr_size);
-                F->init(mgr);
+                TCALL(F->init, A_(mgr));
                 for (int i = 0; i < nctx; i++) {
                         hctx *h = &cx[i];
                         memset(h, 0, sizeof(*h));
@@ -318,7 +323,7 @@ int main(int argc, char **argv)
                         }
                         if (do_flush) {
                                 fprintf(fo, "F\n");
-                                void *ret = F->flush(mgr);
+                                GUARD_OP("flush"); void *ret = (void *) TCALL(F->flush, A_(mgr));
                                 if (is_pub && pub_rc != 0) monitor("C11-valid-flush-reported-failed", pub_rc);
                                 print_result(ret, 0);
                                 int rc = ret ? idx_of(ret) : -1;
@@ -333,8 +338,8 @@ int main(int argc, char **argv)
                                 uint32_t len = pick_len(&R, maxlen);
                                 uint64_t dseed = rng_u64(&R) | 1;
                                 uint32_t align = rng_below(&R, 64);
-                                uint8_t *buf = malloc((size_t) len + 64 + 1);
-                                uint8_t *data = buf + align;
+                                uint8_t *buf = guard_mode ? guard_alloc_al(len, 0) : malloc((size_t) len + 64 + 1);
+                                uint8_t *data = guard_mode ? buf : buf + align;
                                 xs_bytes(dseed, data, len);
                                 fprintf(fo, "S %d %d %u %llu\n", c, flags, len, (unsigned long long) dseed);
                                 /* expected verdict by the API contract */
@@ -345,7 +350,7 @@ int main(int argc, char **argv)
                                         memcpy(snap_mgr, mgr, A->mgr_size);
                                         for (int i = 0; i < nctx; i++) memcpy(snap_ctx + i * A->ctx_size, cx[i].obj, A->ctx_size);
                                 }
-                                void *ret = F->submit(mgr, h->obj, data, len, flags);
+                                GUARD_OP("submit"); void *ret = (void *) TCALL(F->submit, A_(mgr), A_(h->obj), A_(data), len, (uint64_t) (uint32_t) flags);
                                 if (is_pub) {
                                         int want_rc = !rej ? 0 : (flags & ~3) ? 2011 : (st0 & ISAL_HASH_CTX_STS_PROCESSING) ? 2012 : 2013;
                                         if (!rej && pub_rc != 0) monitor("C11-valid-submit-reported-failed", pub_rc);
@@ -366,7 +371,7 @@ int main(int argc, char **argv)
                                                 }
                                                 if (memcmp(a, b, A->ctx_size)) monitor("C11-context-changed-by-reject", i);
                                         }
-                                        free(buf);
+                                        if (guard_mode) guard_free(buf); else free(buf);
                                         /* clear error as a well-behaved caller may; keeps later monitors exact */
                                 } else {
                                         if (h->outstanding) monitor("C06-internal-harness-state", c);
@@ -403,11 +408,12 @@ int main(int argc, char **argv)
                         if (cx[i].st == ST_FLIGHT) monitor("C06-stranded-after-drain", i);
                         free(cx[i].obj);
                         free(cx[i].msg);
-                        free(cx[i].buf);
+                        if (guard_mode && cx[i].buf) guard_free(cx[i].buf); else free(cx[i].buf);
                 }
                 free(mgr);
         }
-        fprintf(fr, "END ops=%ld monitor_fail=%ld\n", done, monitor_fail);
+        monitor_fail += guard_canary_bad;
+        fprintf(fr, "END ops=%ld monitor_fail=%ld tramp_calls=%ld guard=%d\n", done, monitor_fail, tramp_calls, guard_mode);
         fclose(fo);
         fclose(fr);
         return monitor_fail ? 3 : 0;
